@@ -5,13 +5,13 @@ from __future__ import annotations
 
 import ast
 import re
-from typing import Dict, List, Optional, Set, Tuple
+from typing import Dict, FrozenSet, List, Optional, Set, Tuple
 
 from .absint import Obj, Seq, Union, alts_of, interp
 from .b09lib import LIB_REL, b09lib
 from .core import AnalysisError, Ctx, IdiomNotFound, rule
 from .decoders import DECODERS, decoderfacts
-from .pyast import resolve_alias, ast_contains, call_name, names_loaded, pyfacts, unparse
+from .pyast import resolve_alias, ast_contains, call_name, names_loaded, pyfacts, unparse, walk_no_nested
 from .rules_abs import rule_values, walk
 
 VISITORS_REL = "coco/b09/visitors.py"
@@ -128,37 +128,51 @@ def e10c(ctx: Ctx):
 
 @rule("D10", "COMPLEMENTARY-GUARDS: two tests of one control value against one threshold leave no value unhandled", ["C16", "C17", "C19", "C18"], floor=1)
 def d10(ctx: Ctx):
+    """Decided on values: each test that mentions only one byte-valued variable is evaluated for 0..255; two tests of the
+    same variable that are meant as complements (disjoint and covering all but at most two values, or covering everything
+    and overlapping in at most two) must be exact complements."""
+    from .decoders import IntEvalError, int_eval
+
     D = decoderfacts(ctx)
     n = 0
     for dec, rel in DECODERS.items():
         m = D.mods[dec]
         for fn in [x for x in ast.walk(m.tree) if isinstance(x, ast.FunctionDef)]:
-            tests: Dict[Tuple[str, int], List[Tuple[str, int]]] = {}
-            for node in ast.walk(fn):
+            tests: Dict[str, List[Tuple[FrozenSet[int], ast.AST, int]]] = {}
+            for node in walk_no_nested(fn):
                 if isinstance(node, (ast.If, ast.IfExp, ast.While)):
                     t = node.test
-                    if isinstance(t, ast.Compare) and len(t.ops) == 1 and isinstance(t.left, ast.Name) and isinstance(t.comparators[0], ast.Constant) and isinstance(t.comparators[0].value, int):
-                        op = type(t.ops[0]).__name__
-                        tests.setdefault((t.left.id, t.comparators[0].value), []).append((op, node.lineno))
-            for (var, k), lst in sorted(tests.items()):
-                ops = {o for o, _ in lst}
-                if len(lst) < 2 or len(ops) < 2:
-                    continue
-                n += 1
-                ok = ops in ({"Lt", "GtE"}, {"LtE", "Gt"}, {"Eq", "NotEq"})
-                gap = None
-                if ops == {"Lt", "Gt"}:
-                    gap = f"the value {k} itself is handled by neither"
-                elif ops == {"LtE", "GtE"}:
-                    gap = f"the value {k} is handled by both"
-                ctx.ob(
-                    f"{dec}.{fn.name}:{var}~{k}",
-                    ok or gap is None,
-                    "" if (ok or gap is None) else f"`{var}` is tested with {sorted(ops)} against {k} at lines {[l for _, l in lst]}: {gap}, so a control byte of exactly {k} desynchronises the decoder from the stream",
-                    file=rel,
-                    line=lst[0][1],
-                )
-    ctx.need(n >= 1, "decoders", "no pair of threshold tests on one control value found (expected CM3's line-control byte)")
+                    vs = names_loaded(t)
+                    if len(vs) != 1 or not any(isinstance(c, ast.Compare) for c in ast.walk(t)) or any(isinstance(c, ast.Call) for c in ast.walk(t)):
+                        continue
+                    var = next(iter(vs))
+                    try:
+                        sat = frozenset(v for v in range(256) if bool(int_eval(t, {var: v})))
+                    except IntEvalError:
+                        continue
+                    if 0 < len(sat) < 256:
+                        tests.setdefault(var, []).append((sat, t, node.lineno))
+            for var, lst in sorted(tests.items()):
+                for i in range(len(lst)):
+                    for j in range(i + 1, len(lst)):
+                        (s1, t1, l1), (s2, t2, l2) = lst[i], lst[j]
+                        if s1 == s2:
+                            continue
+                        inter, miss = s1 & s2, frozenset(range(256)) - (s1 | s2)
+                        near_complement = (not inter and len(miss) <= 2) or (not miss and len(inter) <= 2)
+                        if not near_complement or min(len(s1), len(s2)) < 3:
+                            continue
+                        n += 1
+                        ok = not inter and not miss
+                        why = f"the value(s) {sorted(miss)} are handled by neither" if miss else f"the value(s) {sorted(inter)} are handled by both"
+                        ctx.ob(
+                            f"{dec}.{fn.name}:{var}~{min(max(s1), max(s2)) if ok else (sorted(miss or inter)[0])}",
+                            ok,
+                            "" if ok else f"`{var}` is tested with `{unparse(t1)}` (line {l1}) and `{unparse(t2)}` (line {l2}): {why}, so a control byte with that value desynchronises the decoder from the stream",
+                            file=rel,
+                            line=l1,
+                        )
+    ctx.need(n >= 1, "decoders", "no pair of complementary tests on one control value found (expected CM3's line-control byte)")
 
 
 @rule("D11", "CARRIED-CONTEXT: a buffer whose previous contents the decompressor reads is not re-initialised inside the loops that carry it", ["C17"], floor=1)
@@ -229,7 +243,28 @@ def d11(ctx: Ctx):
                         line=w0.lineno,
                     )
                     widx = unparse(w0.slice)
-                    size = init.value.right.value if isinstance(init.value.right, ast.Constant) else None
+                    from .decoders import IntEvalError as _IEE, int_eval as _ie
+
+                    modc: Dict[str, int] = {}
+                    for _round in range(3):  # constants defined from earlier constants (`BYTES_PER_LINE = COLS // 2`)
+                        for k_, v_ in m.assigns.items():
+                            if k_ not in modc:
+                                try:
+                                    x_ = _ie(v_, modc)
+                                except (_IEE, Exception):
+                                    continue
+                                if isinstance(x_, int) and not isinstance(x_, bool):
+                                    modc[k_] = x_
+
+                    def cval(e_):
+                        """integer value of a constant expression (named module-level constants included), else None"""
+                        try:
+                            v_ = _ie(e_, modc)
+                        except _IEE:
+                            return None
+                        return v_ if isinstance(v_, int) and not isinstance(v_, bool) else None
+
+                    size = cval(init.value.right)
                     for r in reads:
                         if unparse(r.slice) == widx or inner not in loops_of(r):
                             continue
@@ -237,8 +272,8 @@ def d11(ctx: Ctx):
                         okw = (
                             isinstance(sl, ast.BinOp)
                             and isinstance(sl.op, ast.Mod)
-                            and isinstance(sl.right, ast.Constant)
-                            and sl.right.value == size
+                            and size is not None
+                            and cval(sl.right) == size
                             and isinstance(sl.left, ast.BinOp)
                             and isinstance(sl.left.op, ast.Sub)
                             and unparse(sl.left.left) == widx
@@ -249,7 +284,26 @@ def d11(ctx: Ctx):
                             # `buf[x - 1]`: at x = 0 Python's index -1 is the last element - the same cyclic neighbour,
                             # provided x runs over exactly the buffer (0 .. size-1)
                             lp_ = next((l for l in loops_of(r) if isinstance(l, ast.For) and isinstance(l.target, ast.Name) and l.target.id == widx), None)
-                            okw = lp_ is not None and isinstance(lp_.iter, ast.Call) and call_name(lp_.iter) == "range" and len(lp_.iter.args) == 1 and isinstance(lp_.iter.args[0], ast.Constant) and lp_.iter.args[0].value == size
+                            okw = lp_ is not None and size is not None and isinstance(lp_.iter, ast.Call) and call_name(lp_.iter) == "range" and len(lp_.iter.args) == 1 and cval(lp_.iter.args[0]) == size
+                            if not okw and size is not None:
+                                # ... or a hand-kept counter: set to 0 in front of a loop of exactly `size` rounds, stepped by one once per round
+                                for l in loops_of(r):
+                                    if not (isinstance(l, ast.For) and isinstance(l.iter, ast.Call) and call_name(l.iter) == "range" and len(l.iter.args) == 1 and cval(l.iter.args[0]) == size):
+                                        continue
+                                    steps = [b_ for b_ in l.body if (isinstance(b_, ast.AugAssign) and isinstance(b_.target, ast.Name) and b_.target.id == widx and isinstance(b_.op, ast.Add) and cval(b_.value) == 1) or (isinstance(b_, ast.Assign) and isinstance(b_.targets[0], ast.Name) and b_.targets[0].id == widx and isinstance(b_.value, ast.BinOp) and isinstance(b_.value.op, ast.Add) and unparse(b_.value.left) == widx and cval(b_.value.right) == 1)]
+                                    other = [b_ for b_ in ast.walk(l) if isinstance(b_, (ast.Assign, ast.AugAssign)) and any(isinstance(t_, ast.Name) and t_.id == widx for t_ in (b_.targets if isinstance(b_, ast.Assign) else [b_.target])) and b_ not in steps]
+                                    holder = next((p_ for p_ in ast.walk(fn) if any(l is c_ for c_ in getattr(p_, "body", []) if isinstance(getattr(p_, "body", None), list))), None)
+                                    init0 = False
+                                    if holder is not None:
+                                        before = holder.body[: holder.body.index(l)]
+                                        for b_ in reversed(before):
+                                            if isinstance(b_, ast.Assign) and any(isinstance(t_, ast.Name) and t_.id == widx for t_ in b_.targets):
+                                                init0 = cval(b_.value) == 0
+                                                break
+                                            if any(isinstance(t_, ast.Name) and t_.id == widx and isinstance(t_.ctx, ast.Store) for t_ in ast.walk(b_)):
+                                                break
+                                    if len(steps) == 1 and not other and init0:
+                                        okw = True
                         ctx.ob(
                             f"{dec}.{fn.name}:{var}:previous",
                             okw,
@@ -461,7 +515,7 @@ def l8c(ctx: Ctx):
     ctx.ob("ecb_int:guard", okg, "" if okg else "zero is sent down the negative branch", file=LIB_REL, line=stmts[gi].line)
 
 
-@rule("E10d", "READ-FILTER-TOTAL: once DATA items are turned into strings, every numeric READ target - variable or array element alike - goes through the run-time filter", ["C20", "C03"], floor=2, soft=True)
+@rule("E10d", "READ-FILTER-TOTAL: once DATA items are turned into strings, every numeric READ target - variable or array element alike - goes through the run-time filter", ["C20", "C03", "C14"], floor=2, soft=True)
 def e10d(ctx: Ctx):
     py = pyfacts(ctx)
     ci = py.cls("BasicReadStatementPatcherVisitor")
